@@ -9,9 +9,9 @@ and the slice `[::inc]` for grids that are multiples of the sampling time), `foh
 `forced / step / impulse / initial` (the response functions with argument validation, over `ℚ`).
 `K` is an arbitrary field, the index types arbitrary finite types (all sizes, incl. no states).
 
-Partial (not theorems): that `scipy.linalg.expm` returns the matrix exponential, and that the
-limit of the first-order-hold series solves `x' = A x + B u` for piecewise linear `u`
-(`foh_blocks_partial` proves the block structure for every truncation order).
+Not a theorem: that `scipy.linalg.expm` returns the matrix exponential (contract).  That the limit of
+the first-order-hold series solves `x' = A x + B u` for piecewise linear `u` is proved over `ℝ` in
+Props/C06Exp.lean (`foh_blocks_partial` here proves the block structure for every truncation order).
 -/
 import CtrlVerif.Lemmas.TimeResp
 
